@@ -17,10 +17,11 @@ EXPLANATION = (
     "(inverse) arbitrary symbolic pre-state, a composite of m solver-chosen sub-changes that rope can perform on it: "
     "undo must restore the pre-state and redo the post-state exactly (two solver queries per path). (algebra) a sequence "
     "of up to D history operations with solver-chosen codes {do edit/create/move, undo, redo, undo(i), redo(i), "
-    "undo(drop)} and a solver-chosen max_history_items in 0..3; after every step the tree must equal (solver query) the "
+    "undo(drop), undo(i, drop)} and a solver-chosen max_history_items in 0..3; after every step the tree must equal (solver query) the "
     "tree obtained by a reference model that replays, from the initial state and with primitive file operations only, "
     "exactly the changes that are in force ('never having made' the undone ones); the undo list never exceeds the limit, "
-    "a new change clears redo, undo/redo with nothing to undo/redo is refused with HistoryError and has no effect."
+    "a new change clears redo, the redo list is exactly the set of undone changes that were neither dropped nor cleared, "
+    "undo/redo with nothing to undo/redo is refused with HistoryError and has no effect."
 )
 ASSUMPTIONS = [
     "A8/A10 as for C10; file contents are one symbolic letter",
@@ -35,7 +36,7 @@ BOUNDS = {
 STUBS = ["os/shutil/open -> rsx.mfs model file system"]
 ROOT = "/rsx-mfs-root"
 KINDS = ["edit", "mkfile", "mkdir", "move"]
-OPS = ["do-edit", "do-mkfile", "do-move", "do-mkdir", "undo", "redo", "undo-i", "redo-i", "undo-drop"]
+OPS = ["do-edit", "do-mkfile", "do-move", "do-mkdir", "undo", "redo", "undo-i", "redo-i", "undo-drop", "undo-i-drop"]
 # family "dir": a folder is moved after changes to files inside it (dependency through containment)
 OPS_DIR = ["do-edit", "do-mvdir", "undo", "redo", "undo-i", "redo-i"]
 DIR_FILES, DIR_DIRS = ["d/c.py", "e/c.py", "a.py"], ["d", "e"]
@@ -277,13 +278,13 @@ def make_algebra(p):
                             res = hist.undo(drop=True)
                         elif op == "redo":
                             res = hist.redo()
-                        elif op == "undo-i":
+                        elif op in ("undo-i", "undo-i-drop"):
                             if not hist.undo_list:
                                 raise PathAbort()
                             i = choose("sel%d" % step, len(hist.undo_list))
                             trace[-1].append(i)
                             lst = list(hist.undo_list)
-                            res = hist.undo(lst[i])
+                            res = hist.undo(lst[i], drop=(op == "undo-i-drop"))
                             bad = _check_selection(lst, i, res, done)
                             if bad:
                                 return h.fail("wrong_dependents", bad, pre=_cst(fs, pre, E.fresh_model()), trace=trace, limit=limit)
@@ -312,10 +313,13 @@ def make_algebra(p):
                         for x in done:
                             if x["obj"] is cs_:
                                 if op.startswith("undo"):
-                                    x["status"] = "forgotten" if op == "undo-drop" else "undone"
+                                    x["status"] = "forgotten" if op.endswith("-drop") else "undone"
                                 else:
                                     x["status"] = "force"
                     # what rope says it undid must be a dependency-closed suffix set: checked through the tree
+                # the redo list holds exactly the undone changes that were neither dropped nor cleared by a new change
+                if {id(c_) for c_ in hist.redo_list} != {id(x["obj"]) for x in done if x["status"] == "undone"}:
+                    return h.fail("redo_list_wrong", "after step %d (%s) the redo list is not the set of undone, not dropped changes" % (step, op), pre=_cst(fs, pre, E.fresh_model()), trace=trace, limit=limit)
                 if len(hist.undo_list) > limit:
                     return h.fail("limit_exceeded", "undo list has %d entries, limit %d" % (len(hist.undo_list), limit), pre=_cst(fs, pre, E.fresh_model()), trace=trace, limit=limit)
                 # reference tree: replay the changes in force from the initial state
